@@ -702,10 +702,24 @@ async fn wait_for_pipeline_processes_and_update_status(
         let ran_in_current_shell = runs_in_current_shell(shell, index, pipeline_len);
         index += 1;
 
-        let wait_result = if !stopped_children.is_empty() {
-            child.poll().await?
+        let waited = if !stopped_children.is_empty() {
+            child.poll().await
         } else {
-            child.wait().await?
+            child.wait().await
+        };
+
+        let wait_result = match waited {
+            Ok(wait_result) => wait_result,
+            // A stage that ran in its own subshell and ended with a fatal error (a failed
+            // `${x?}`, say) ends that stage only: report it, give the stage its failure status
+            // and keep waiting for the other stages.
+            Err(error) if !ran_in_current_shell => {
+                let mut stderr = params.stderr(shell);
+                let _ = shell.display_error(&mut stderr, &error);
+                let stage_result = error.into_result(shell);
+                ExecutionWaitResult::Completed(ExecutionResult::from(stage_result.exit_code))
+            }
+            Err(error) => return Err(error),
         };
 
         match wait_result {
